@@ -373,7 +373,25 @@ func nodeSites(n *Node, where string, depth int, isRoot bool) []c05Site {
 		for i := range n.Elems {
 			out = append(out, nodeSites(&n.Elems[i], fmt.Sprintf("%s[%d]", where, i), depth+1, false)...)
 		}
+		if !isRoot {
+			// the same position holds a Condition (around the former stack) instead of the stack
+			out = append(out, c05Site{func() {
+				inner := *n
+				inner.Wrap = 0
+				*n = Node{T: "cond", KW: "k", Op: OpEq(), Expr: &inner}
+			}, where + " stack replaced by a Condition holding it", "node/stack-to-cond"})
+		}
 	case "cond":
+		if !isRoot {
+			// the same position holds a Stack (of the former keyword and expression) instead of the Condition
+			out = append(out, c05Site{func() {
+				repl := Node{T: "stack", Kind: "LIST", Elems: []Node{LeafN(VS(n.KW))}}
+				if n.Expr != nil {
+					repl.Elems = append(repl.Elems, *n.Expr)
+				}
+				*n = repl
+			}, where + " Condition replaced by a Stack of its keyword and expression", "node/cond-to-stack"})
+		}
 		out = append(out, c05Site{func() { n.KW += "x" }, where + " keyword", "cond/keyword"})
 		out = append(out, c05Site{func() {
 			k := nearString(n.KW, 0)
@@ -491,7 +509,7 @@ func c05TreeGen(tier Tier) TreeGen {
 		Kinds: stackKinds,
 		Leaf:  genC05Leaf,
 		Conds: true, CondExprStack: true, NotAsCondExpr: true,
-		Caps: true, EmptyStacks: true, Ambient: true, WideRuns: true,
+		Caps: true, EmptyStacks: true, IndexOpts: true, FIFOOpt: true, Ambient: true, WideRuns: true, NoNestAfter: true, ReadOnlyNodes: true,
 		Options: true, // symbols, delimiters, fold ...: presentation settings must never mask a real difference
 	}
 	if tier.Thorough {
@@ -549,8 +567,8 @@ func init() {
 			"a struct field, pointee, keyword, operator, operator context, kind, capacity, sibling swap, one element more/fewer) must be rejected both ways; no panic. non-trivial = the pair carries a mutation; distinct = distinct (A,B) JSON",
 		Gen: genC05,
 		Run: runC05,
-		Floors: map[string]float64{"equal-only": 0.1, "mut:slice/elem/middle": 0.01, "mut:slice/elem/last": 0.01, "mut:map/value/last": 0.005, "mut:map/key-changed": 0.01,
-			"private-field-struct-present": 0.02, "mut:stack/swap": 0.003, "mut:cond/operator": 0.01, "mut:cond/keyword-case": 0.005, "mut:stack/kind": 0.01, "mut:ptr/depth3/nested": 0.002, "mut:struct/priv/fieldB": 0.001, "comparable-struct-with-pointer-present": 0.01},
+		Floors: map[string]float64{"equal-only": 0.1, "mut:slice/elem/middle": 0.01, "mut:slice/elem/last": 0.01, "mut:map/value/last": 0.003, "mut:map/key-changed": 0.01,
+			"private-field-struct-present": 0.02, "mut:stack/swap": 0.003, "mut:cond/operator": 0.01, "mut:cond/keyword-case": 0.005, "mut:node/cond-to-stack": 0.005, "mut:node/stack-to-cond": 0.005, "mut:stack/kind": 0.01, "mut:ptr/depth3/nested": 0.002, "mut:struct/priv/fieldB": 0.001, "comparable-struct-with-pointer-present": 0.01},
 		Assumptions: []string{"NaN, typed-nil pointers, containers nested in containers, functions and channels are not generated (outside the statement)",
 			"unexported struct fields are never mutated (documented as ignored); slices are built with cap==len (capacity is part of the documented slice comparison)"},
 	})
